@@ -95,7 +95,8 @@ def generate(prop, rng):
         op = {"op": kind}
         if kind == "stage":
             s = rng.choice(md5_stores + ["L"])
-            op.update(tree=ti, store=s, upload=(s != "L" and rng.random() < 0.25), hardlink=rng.random() < 0.15)
+            op.update(tree=ti, store=s, upload=(s != "L" and rng.random() < 0.25), hardlink=rng.random() < 0.15,
+                      trailing_sep=rng.random() < 0.2)
             staged.setdefault(s, set()).add(ti)
         elif kind == "stage_file":
             op.update(content=rng.randrange(len(pool)), store=rng.choice(md5_stores + ["L"]))
@@ -132,6 +133,7 @@ def generate(prop, rng):
                 read_only=rng.random() < 0.1,
                 cache_odb=rng.choice([None, "A", "B"]),
                 used_as_iter=rng.random() < 0.4,
+                used_strip_dir=rng.random() < 0.25,
             )
         elif kind == "checkout":
             cands = [s for s in md5_stores if s != "R" and staged.get(s)]
@@ -140,7 +142,8 @@ def generate(prop, rng):
             s = rng.choice(cands)
             op.update(store=s, tree=rng.choice(sorted(staged[s])),
                       link=rng.choice(["copy", "hardlink", "symlink", "reflink"]),
-                      with_state=rng.random() < 0.5, via=rng.choice(["obj", "obj", "index"]))
+                      with_state=rng.random() < 0.5, via=rng.choice(["obj", "obj", "index"]),
+                      reuse_dest=rng.random() < 0.3)
         elif kind == "edit":
             op.update(tree=ti, content=rng.randrange(len(pool)), name=rng.choice(gen.NAMES))
         elif kind == "evict":
@@ -415,7 +418,8 @@ def op_stage(h, op, n):
     ws = h.write_ws(op["tree"])
     fired0 = sum(ctx.seam.fired.values())
     staging, meta, obj = build(
-        odb, ws, h.w.localfs, algo, upload=bool(op.get("upload")), checksum_jobs=h.cfg["jobs"]
+        odb, ws + (os.sep if op.get("trailing_sep") else ""), h.w.localfs, algo, upload=bool(op.get("upload")),
+        checksum_jobs=h.cfg["jobs"],
     )
     r = transfer(staging, odb, {obj.hash_info}, shallow=False, hardlink=bool(op.get("hardlink")), jobs=h.cfg["jobs"])
     faulted = sum(ctx.seam.fired.values()) > fired0
@@ -584,13 +588,14 @@ def op_gc(h, op, n):
     expand_src = h.odb(op["cache_odb"]) if op.get("cache_odb") else None
     src_objs = h.listing(op["cache_odb"])[0] if op.get("cache_odb") else objs0
     skip = False
+    absent_dir = False
     for ti in op["used_trees"]:
         doid, dbytes, ents = h.model_dir(ti, algo)
         used.append(_hi(doid, algo))
         U.add(doid)
         if not op["shallow"]:
             if doid not in src_objs:
-                skip = True  # expanding needs the directory object in cache_odb
+                absent_dir = True  # expanding needs the directory object in cache_odb
             U.update(ents.values())
     for ci in op["used_files"]:
         o = model.ref_digest(algo, h.contents[ci])
@@ -614,7 +619,35 @@ def op_gc(h, op, n):
                 skip = True
             else:
                 U.update(ents.values())
+    if op.get("used_strip_dir"):
+        # the id of a stored DIRECTORY object given without its ".dir" suffix is a different id:
+        # it names (at most) a file object and must not protect the directory object
+        dirs_in_store = sorted(o for o in S if o.endswith(".dir"))
+        if dirs_in_store:
+            o = dirs_in_store[int(op["used_present_pick"] * len(dirs_in_store)) % len(dirs_in_store)]
+            used.append(_hi(o[: -len(".dir")], algo))
+            U.add(o[: -len(".dir")])
     if skip:
+        return None
+    if absent_dir:
+        # the used directory object is not in cache_odb: the expansion cannot be computed. Refusing
+        # (FileNotFoundError) without touching the store is fine; returning normally is fine too as
+        # long as no object known to be used was removed.
+        try:
+            gc(odb, (u for u in used) if op.get("used_as_iter") else used, cache_odb=expand_src, shallow=False, dry=op["dry"])
+        except FileNotFoundError:
+            if set(h.listing(s)[0]) != set(objs0):
+                ctx.violate("gc-raised-after-removing", "absent-used-dir", f"op{n}")
+            return None
+        except Exception as exc:  # noqa: BLE001
+            if ctx.prop == "C06":
+                ctx.violate("gc-raised", f"{type(exc).__name__}:absent-used-dir", f"op{n}: {exc!r}")
+            return None
+        if ctx.prop == "C06":
+            lost = sorted(o for o in set(objs0) & U if o not in h.listing(s)[0])
+            if lost and not op["dry"]:
+                ctx.violate("gc-result", "removed-used:absent-used-dir", f"op{n}: lost used {[model.short(o) for o in lost]}")
+        h.complete.get(s, {}).clear()
         return None
     if op.get("read_only"):
         odb.read_only = True
@@ -679,6 +712,11 @@ def op_checkout(h, op, n):
     if link == "reflink" and h.cfg["reflink"] != "cow":
         link = "copy"
     dest = h.w.p("co", f"c{n}")
+    if op.get("reuse_dest"):
+        # the same location is checked out into again after the user removed it
+        dest = h.w.p("co", "again")
+        if os.path.lexists(dest):
+            REAL["shutil.rmtree"](dest)
     h.w.mkdirs(os.path.dirname(dest))
     if op["via"] == "index":
         from dvc_data.hashfile.meta import Meta
